@@ -26,6 +26,21 @@ def chunks(wire: bytes, spec: dict):
     return out
 
 
+EXTRAS = ("as", "gaps")  # how chunks are handed over / stalls between deliveries: not part of where the cuts are
+
+
+def keep(old: dict, new: dict) -> dict:
+    """`new` cut positions with `old`'s delivery extras (shrinking the cuts must not silently change the delivery)."""
+    return {**new, **{k: old[k] for k in EXTRAS if k in old}}
+
+
+def simpler(spec: dict):
+    """Shrink candidates that drop one delivery extra each."""
+    for k in EXTRAS:
+        if k in spec:
+            yield {a: b for a, b in spec.items() if a != k}
+
+
 def n_cuts(wire_len: int, spec: dict) -> int:
     m = spec.get("m", "whole")
     if m == "whole":
@@ -37,8 +52,11 @@ def n_cuts(wire_len: int, spec: dict) -> int:
 
 def draw(rng, wire_len: int, hot=(), allow_empty: bool = True, max_list: int = 400) -> dict:
     spec = _draw(rng, wire_len, hot, allow_empty, max_list)
-    if rng.random() < 0.08:
+    r = rng.random()
+    if r < 0.06:
         spec["as"] = "bytearray"
+    elif r < 0.11:
+        spec["as"] = "reused_bytearray"  # one receive buffer object, refilled before every call
     if spec["m"] != "whole" and rng.random() < 0.07:
         # the sender / the event loop stalls before some deliveries (simulated process clock, reader_rig.ProcessClock)
         spec["gaps"] = [[rng.randrange(0, 400), rng.choice([0.3, 1.5, 1.5, 5.0, 61.0, 3600.0, 172800.0])] for _ in range(rng.choice([1, 1, 2, 4]))]
